@@ -7,7 +7,7 @@ import time
 
 from . import c19, core, report
 
-NCASES = {'quick': 264, 'thorough': 3300}
+NCASES = {'quick': 264, 'thorough': 2200}
 CASE_TIMEOUT = {'quick': 600.0, 'thorough': 1800.0}
 
 REAL = ["droop.profile.ElectionProfile (parser)", "droop.election.Election (constructor, count, report/dump/json)",
